@@ -219,3 +219,344 @@ def install(ns):
     """make the if-conversion hooks of namespace `ns` AInt-aware (call before ifconv.convert, which uses setdefault)"""
     ns["__sx_cond__"] = a_cond
     ns["__sx_ite__"] = a_ite
+
+
+# =====================================================================================================================
+# DAG pass (C09): the same normal form computed *after the fact* from an ordinary symx.core expression DAG
+#
+# The value domain above keeps affine state flat while code runs on AInt values.  The pass below instead takes the
+# expression an unmodified run produced (ops const / var / xor / or, add of disjoint supports / and-with-const / shl / shr /
+# byte / cat / ite whose arms differ by a constant / const * bit) and computes, for every bit of its value, the set of atoms it
+# is the XOR of.  Sub-expressions outside the fragment become opaque blocks of atoms (Space(opaque=True)) or raise NotAffine
+# (Space(opaque=False)).  GF(2)-affine identities (bech32 checksum round trip, polymod(a^b) = polymod(a)^polymod(b)^polymod(0))
+# then are comparisons of bit sets, and the syndrome of a substitution error is read off as one column per input bit.
+# Semantics preserving case by case; checks/c09.py cross-checks it on every run against z3 (an expression and its rebuilt
+# normal form are equivalent, at a short length) and against the native function on random inputs.
+
+from .core import Node, const, is_const, nz, n_bit, n_shr, n_ite, b_not, b_cmp, wrap, lift  # noqa: E402
+
+class NotAffine(Exception):
+    pass
+
+
+class Space:
+    """atom registry + memo.  opaque=True: a sub-expression that is not XOR-affine becomes a block of atoms (its own bits);
+    opaque=False: it raises NotAffine (used where the whole expression must be affine in the declared variables)."""
+
+    def __init__(self, opaque=True):
+        self.opaque = opaque
+        self.atoms = [None]      # index -> (node, bit)
+        self.index = {}          # (node id, bit) -> index
+        self.memo = {}           # node id -> tuple of masks at the node's full unsigned width
+        self.bmemo = {}
+
+    def atom(self, node, bit):
+        k = (node.id, bit)
+        i = self.index.get(k)
+        if i is None:
+            i = len(self.atoms)
+            self.atoms.append((node, bit))
+            self.index[k] = i
+        return 1 << i
+
+    def atom_index(self, node, bit):
+        """index of an existing atom, or None when that bit never occurred"""
+        return self.index.get((node.id, bit))
+
+
+LOOSE = Space(opaque=True)
+STRICT = Space(opaque=False)
+
+
+def _width(n):
+    if n.lo < 0:
+        raise NotAffine(f"possibly negative value ({n.op})")
+    return max(n.hi.bit_length(), 1)
+
+
+def bits(n, k, sp=LOOSE):
+    """list of k masks (LSB first) for value(n) mod 2^k, n a non-negative int node"""
+    full = _full(n, sp)
+    W = len(full)
+    if k <= W:
+        return list(full[:k])
+    return list(full) + [0] * (k - W)
+
+
+_FAILED = ()
+
+
+def _deps(x):
+    """nodes whose forms the form of x is computed from (worklist order; keeps the recursion depth constant)"""
+    op, a = x.op, x.args
+    if op in ("xor", "or", "add", "and", "mul", "eq", "lt", "le"):
+        return [y for y in a if isinstance(y, Node)]
+    if op in ("shl", "shr", "byte", "not"):
+        return [a[0]]
+    if op == "cat":
+        return list(a)
+    if op == "ite":
+        return [a[0], a[1], a[2]]
+    return []
+
+
+def _done(x, sp):
+    return (x.id in sp.bmemo) if x.isbool else (x.id in sp.memo)
+
+
+def _settle(n, sp):
+    stack = [n]
+    while stack:
+        x = stack[-1]
+        if _done(x, sp):
+            stack.pop()
+            continue
+        pend = [d for d in _deps(x) if not _done(d, sp)]
+        if pend:
+            stack.extend(pend)
+            continue
+        stack.pop()
+        if x.isbool:
+            try:
+                _cond1(x, sp)
+            except NotAffine:
+                sp.bmemo[x.id] = None
+        else:
+            try:
+                _full1(x, sp)
+            except NotAffine:
+                sp.memo[x.id] = _FAILED
+
+
+def _full(n, sp):
+    r = sp.memo.get(n.id)
+    if r is None:
+        _settle(n, sp)
+        r = sp.memo.get(n.id)
+    if r is _FAILED or r is None:
+        raise NotAffine(n.op)
+    return r
+
+
+def _full1(n, sp):
+    W = _width(n)
+    try:
+        r = _compute(n, W, sp)
+    except NotAffine:
+        if not sp.opaque or n.op == "const":
+            raise
+        r = [sp.atom(n, i) for i in range(W)]
+    r = tuple(r)
+    assert len(r) == W
+    sp.memo[n.id] = r
+    return r
+
+
+def _compute(n, W, sp):
+    op, a = n.op, n.args
+    if op == "const":
+        return [(a[0] >> i) & 1 for i in range(W)]
+    if op == "var":
+        return [sp.atom(n, i) for i in range(W)]
+    if op == "xor":
+        x, y = bits(a[0], W, sp), bits(a[1], W, sp)
+        return [p ^ q for p, q in zip(x, y)]
+    if op in ("or", "add"):
+        if a[0].lo < 0 or a[1].lo < 0:
+            raise NotAffine(op)
+        kk = max(_width(a[0]), _width(a[1]), W)
+        if nz(a[0], kk) & nz(a[1], kk):
+            raise NotAffine(op + " of overlapping supports")
+        x, y = bits(a[0], W, sp), bits(a[1], W, sp)
+        return [p ^ q for p, q in zip(x, y)]
+    if op == "and":
+        c, o = (a[0], a[1]) if is_const(a[0]) else (a[1], a[0])
+        if not is_const(c) or c.args[0] < 0:
+            raise NotAffine("and of two non-constants")
+        x = bits(o, W, sp)
+        return [x[i] if (c.args[0] >> i) & 1 else 0 for i in range(W)]
+    if op == "shl":
+        c = a[1]
+        x = bits(a[0], max(W - c, 0), sp)
+        return ([0] * min(c, W) + x)[:W]
+    if op == "shr":
+        c = a[1]
+        return bits(a[0], W + c, sp)[c:c + W]
+    if op == "byte":
+        x, i = a
+        return bits(x, 8 * i + 8, sp)[8 * i:8 * i + W]
+    if op == "cat":
+        out = []
+        for it in reversed(a):
+            out.extend(bits(it, 8, sp))
+        return (out + [0] * W)[:W]
+    if op == "ite":
+        cb = cond_bit(a[0], sp)
+        t, e = bits(a[1], W, sp), bits(a[2], W, sp)
+        d = [p ^ q for p, q in zip(t, e)]
+        if any(x not in (0, 1) for x in d):
+            raise NotAffine("ite whose arms differ by a non-constant")
+        return [e[i] ^ (cb if d[i] else 0) for i in range(W)]
+    if op == "mul":
+        c, o = (a[0], a[1]) if is_const(a[0]) else (a[1], a[0])
+        if is_const(c) and c.args[0] >= 0 and o.lo >= 0 and o.hi <= 1:
+            xb = bits(o, 1, sp)[0]
+            return [xb if (c.args[0] >> i) & 1 else 0 for i in range(W)]
+        raise NotAffine("mul")
+    raise NotAffine(op)
+
+
+def cond_bit(p, sp=LOOSE):
+    """mask of the truth value (0/1) of a boolean node"""
+    if p.id not in sp.bmemo:
+        _settle(p, sp)
+    r = sp.bmemo.get(p.id)
+    if r is None:
+        raise NotAffine("condition " + p.op)
+    return r
+
+
+def _cond1(p, sp):
+    op, a = p.op, p.args
+    r = None
+    try:
+        if op == "bconst":
+            r = 1 if a[0] else 0
+        elif op == "not":
+            r = 1 ^ cond_bit(a[0], sp)
+        elif op == "eq":
+            x, y = a
+            if is_const(x):
+                x, y = y, x
+            if is_const(y) and x.lo >= 0 and x.hi <= 1 and y.args[0] in (0, 1):
+                xb = bits(x, 1, sp)[0]
+                r = xb if y.args[0] == 1 else xb ^ 1
+        elif op == "lt":
+            x, y = a
+            if is_const(x) and x.args[0] == 0 and y.lo >= 0 and y.hi <= 1:      # 0 < y
+                r = bits(y, 1, sp)[0]
+            elif is_const(y) and y.args[0] == 1 and x.lo >= 0 and x.hi <= 1:    # x < 1
+                r = bits(x, 1, sp)[0] ^ 1
+        elif op == "le":
+            x, y = a
+            if is_const(x) and x.args[0] == 1 and y.lo >= 0 and y.hi <= 1:      # 1 <= y
+                r = bits(y, 1, sp)[0]
+            elif is_const(y) and y.args[0] == 0 and x.lo >= 0 and x.hi <= 1:    # x <= 0
+                r = bits(x, 1, sp)[0] ^ 1
+    except NotAffine:
+        r = None
+    if r is None:
+        if op == "bvar" or sp.opaque:
+            r = sp.atom(p, 0)
+        else:
+            raise NotAffine("condition " + op)
+    sp.bmemo[p.id] = r
+    return r
+
+
+# ------------------------------------------------------------------------------------------------ back to expressions
+
+def _atom_cond(sp, idx):
+    node, bit = sp.atoms[idx]
+    if node.isbool:
+        return node
+    bn = node if (node.lo >= 0 and node.hi <= 1) else n_bit("and", n_shr(node, bit), const(1))
+    return b_not(b_cmp("eq", bn, const(0)))
+
+
+def columns(masks):
+    """(constant, {atom index: column}) with column = the set of output bits the atom toggles"""
+    c0 = 0
+    cols = {}
+    for i, m in enumerate(masks):
+        if m & 1:
+            c0 |= 1 << i
+        mm = m >> 1
+        idx = 1
+        while mm:
+            low = (mm & -mm).bit_length() - 1
+            idx += low
+            mm >>= low
+            cols[idx] = cols.get(idx, 0) | (1 << i)
+            mm >>= 1
+            idx += 1
+    return c0, cols
+
+
+def rebuild(masks, sp=LOOSE):
+    """canonical expression node: constant ^ XOR over atoms (in index order) of ite(atom, column, 0)"""
+    c0, cols = columns(masks)
+    acc = const(c0)
+    for idx in sorted(cols):
+        acc = n_bit("xor", acc, n_ite(_atom_cond(sp, idx), const(cols[idx]), const(0)))
+    return acc
+
+
+def _node_width(x, k):
+    if isinstance(x, int):
+        if x < 0:
+            raise NotAffine("negative constant")
+        return const(x), max(k or 0, x.bit_length(), 1)
+    n = lift(x)
+    return n, max(k or 0, _width(n))
+
+
+def forms(x, k=None, sp=LOOSE):
+    """masks of an SI / int at k bits (default: its unsigned width)"""
+    n, w = _node_width(x, k)
+    return bits(n, k if k is not None else w, sp)
+
+
+def normalize(x, k=None, sp=LOOSE):
+    """x (SI or int) rewritten into its normal form: a Python int when every bit is constant, else an SI over the canonical
+    node.  Values the pass cannot treat (possibly negative) are returned unchanged."""
+    if isinstance(x, int):
+        return x
+    try:
+        m = forms(x, k, sp)
+    except NotAffine:
+        return x
+    return wrap(rebuild(m, sp))
+
+
+def diff(a, b, sp=LOOSE):
+    """normal form of a ^ b: the int 0 exactly when the two normal forms coincide (a == b identically), a non-zero int when
+    they differ by a constant (a != b for every input), else an SI whose non-zero-ness is the difference"""
+    na, wa = _node_width(a, None)
+    nb, wb = _node_width(b, None)
+    k = max(wa, wb)
+    ma, mb = bits(na, k, sp), bits(nb, k, sp)
+    d = [p ^ q for p, q in zip(ma, mb)]
+    return wrap(rebuild(d, sp))
+
+
+def equal(a, b, sp=LOOSE):
+    """True / False when decided by the normal forms (identical / differing by a constant in some bit); else an SB"""
+    try:
+        d = diff(a, b, sp)
+    except NotAffine:
+        return a == b
+    if isinstance(d, int):
+        return d == 0
+    return d == 0
+
+
+def evaluate(masks, assignment, sp=LOOSE):
+    """concrete value of a list of masks under assignment: callable(node, bit) -> 0/1 (self-validation)"""
+    val = {}
+    out = 0
+    for i, m in enumerate(masks):
+        b = m & 1
+        mm = m >> 1
+        idx = 1
+        while mm:
+            if mm & 1:
+                v = val.get(idx)
+                if v is None:
+                    node, bit = sp.atoms[idx]
+                    v = val[idx] = assignment(node, bit) & 1
+                b ^= v
+            mm >>= 1
+            idx += 1
+        out |= b << i
+    return out
